@@ -16,6 +16,7 @@ from mirsmt.interp import Inconclusive, PathEnd
 BV = z3.BitVecSort(64)
 
 
+@common.part
 def simple(chk, name, bound, body, mkargs, claim, models=None):
     """Explore `body` on mkargs(ex); on every path `claim(ex, kind, result)` -> z3 Bool that must hold."""
     o = chk.add(Obligation(name, bound))
@@ -134,6 +135,127 @@ def confirm_native(chk, o):
 
 def fld(ex, v, idx, ty='usize'):
     return ex.materialize(ex.field_of(ex.materialize(v), None, idx, ty), ty)
+
+
+@common.part
+def round_trip(chk, prog, ro_v, wf, fld, R, RO, cur, left, after_d, dur, now, from_body):
+    """Whatever RetryOptionsWithDeadline stores: (1) converting the options of a queued entry back (what Features::get does
+    when it hands the entry out, at any later clock reading) gives the configured budget and the configured DELAY again, so
+    that the next retry waits as long as this one; (2) an entry re-queued at `now` with delay d reports `left_until_retry`
+    = None only when at least d has passed, Some(x) only with x = d - elapsed; an entry that is not a retry never waits."""
+    wd_b = common.find_method(prog, 'RetryOptions', 'with_deadline')
+    wo_b = common.find_method(prog, 'RetryOptions', 'without_deadline')
+    lu_b = common.find_method(prog, 'RetryOptionsWithDeadline', 'left_until_retry')
+    for which in ('with_deadline', 'without_deadline'):
+        o = chk.add(Obligation('C05.round-trip[%s]' % which, 'all budgets, delays present/absent with all 64-bit values < 2^62, all clock readings (symbolic monotone clock)'))
+        o.verdict = 'holds'
+        ex, M = chk.new_exec(loop_bound=6)
+
+        def run(ex_, which=which, M=M):
+            wf(ex_)
+            ex_.add(z3.And(z3.ULT(dur, bv(1 << 62)), z3.ULT(now, bv(1 << 62))))
+            ex_.env['clock'] = now
+            ro = ro_v()
+            rd = ex_.call_body(wd_b, [ro, now]) if which == 'with_deadline' else ex_.call_body(wo_b, [ro])
+            rdc = Cell(ex_.materialize(rd), name='queued entry options')
+            left_r = ex_.materialize(ex_.call_body(lu_b, [Ref(rdc, ())]))
+            t_left = ex_.env.get('clock')
+            back = ex_.materialize(ex_.call_body(from_body, [rdc.v]))
+            return {'left': left_r, 't_left': t_left, 'back': back, 'elapsed': list(ex_.env.get('elapsed', []))}
+
+        def on_end(ex_, rec, which=which, M=M, o=o):
+            kind, res, pc, dec = rec
+            o.paths += 1
+            if kind != 'ok':
+                if o.verdict != 'violated':
+                    o.verdict = 'inconclusive' if kind in ('loopbound', 'unreachable') else 'violated'
+                    o.detail = '%s: %s' % (kind, res)
+                return
+            back = res['back']
+            br = ex_.materialize(ex_.field_of(back, None, RO['retries'], 'event::Retries'))
+            claims = [fld(ex_, br, R['current']) == cur, fld(ex_, br, R['left']) == left]
+            ba = ex_.materialize(ex_.field_of(back, None, RO['after'], 'Option<Duration>'))
+            bd = M.discr(ex_, ba)
+            claims.append(bd == after_d)
+            if ex_.check(bd == bv(1)):
+                claims.append(z3.Implies(bd == bv(1), ex_.materialize(ex_.field_of(ba, 1, 0, 'std::time::Duration'), 'std::time::Duration') == dur))
+            # left_until_retry
+            lr = res['left']
+            ld = M.discr(ex_, lr)
+            if which == 'without_deadline':
+                claims.append(ld == bv(0))
+            else:
+                # time passed since `now`: either the clock reading taken by the function, or the value Instant::elapsed gave
+                if res['elapsed']:
+                    e = res['elapsed'][0][1]
+                    claims.append(res['elapsed'][0][0] == now)
+                else:
+                    e = (res['t_left'] - now) if res['t_left'] is not None else None
+                if e is not None:
+                    claims.append(z3.Implies(after_d == bv(0), ld == bv(0)))
+                    claims.append(z3.Implies(z3.And(after_d == bv(1), ld == bv(0)), z3.UGE(e, dur)))
+                    if ex_.check(ld == bv(1)):
+                        x = ex_.materialize(ex_.field_of(lr, 1, 0, 'std::time::Duration'), 'std::time::Duration')
+                        claims.append(z3.Implies(ld == bv(1), z3.And(after_d == bv(1), z3.ULE(e, dur), x == dur - e)))
+            o.queries += 1
+            if ex_.check(z3.Not(z3.And(*claims))):
+                if o.verdict != 'violated':
+                    o.verdict = 'violated'
+                    m = ex_.solver.model()
+                    o.model = {str(d): str(m[d]) for d in m.decls() if not str(d).startswith('k!')}
+                    bad = [str(z3.simplify(c))[:80] for c in claims if ex_.check(z3.Not(c))]
+                    o.detail = 'the options of a queued entry (%s) do not come back as configured / report a wrong wait: %s' % (which, bad[:2])
+        ex.explore(run, on_end)
+        if o.verdict == 'violated':
+            confirm_round_trip(chk, o, which)
+
+
+def confirm_round_trip(chk, o, which):
+    """in-crate replay, only through the functions' names (no assumption on what RetryOptionsWithDeadline stores)"""
+    import os
+    from checks import incrate
+    code = ['    #[test]', '    fn verif_replay() {', '        use std::time::{Duration, Instant};']
+    for after in (None, 40_000_000):
+        a = 'None' if after is None else 'Some(Duration::from_nanos(%d))' % after
+        code.append('        {{ let ro = RetryOptions {{ retries: Retries {{ current: 1, left: 2 }}, after: {a} }};'.format(a=a))
+        code.append('          let q = ro.%s;' % ('with_deadline(Instant::now())' if which == 'with_deadline' else 'without_deadline()'))
+        code.append('          let fresh = q.left_until_retry();')
+        code.append('          std::thread::sleep(Duration::from_millis(15));')
+        code.append('          let mid = q.left_until_retry();')
+        code.append('          let back: RetryOptions = q.into();')
+        code.append('          std::thread::sleep(Duration::from_millis(40));')
+        code.append('          let late = q.left_until_retry();')
+        code.append('          println!("RESULT after={an} back_ok={{}} back_after={{}} fresh={{}} mid={{}} late={{}}", back == ro, back.after.map_or(-1i128, |d| d.as_nanos() as i128), fresh.map_or(-1i128, |d| d.as_nanos() as i128), mid.map_or(-1i128, |d| d.as_nanos() as i128), late.map_or(-1i128, |d| d.as_nanos() as i128)); }}'.format(an=-1 if after is None else after))
+    code.append('    }')
+    res, out = incrate.run('src/runner/basic.rs', '\n'.join(code))
+    chk.replays += 1
+    d = os.path.join(common.EVID, 'replay')
+    os.makedirs(d, exist_ok=True)
+    path = os.path.join(d, 'C05-retry-options-round-trip-%s.txt' % which)
+    if not res:
+        o.verdict = 'inconclusive'
+        o.detail += ' | in-crate replay failed: %s' % out[-300:]
+        return
+    devs = []
+    for r in res:
+        after = r['after']
+        if not r['back_ok']:
+            devs.append('delay %s ns configured, after 15 ms in the queue the options come back with delay %s ns' % (after, r['back_after']))
+        if which == 'without_deadline' and (r['fresh'], r['mid'], r['late']) != (-1, -1, -1):
+            devs.append('an entry that is not a retry reports a wait: %s' % ((r['fresh'], r['mid'], r['late']),))
+        if which == 'with_deadline':
+            if after == -1 and (r['fresh'], r['mid'], r['late']) != (-1, -1, -1):
+                devs.append('no delay configured, yet a wait is reported: %s' % ((r['fresh'], r['mid'], r['late']),))
+            if after != -1 and not (0 <= r['fresh'] <= after and 0 <= r['mid'] <= after - 14_000_000 and r['late'] == -1):
+                devs.append('delay %d ns: waits reported at 0 / 15 / 55 ms: %s' % (after, (r['fresh'], r['mid'], r['late'])))
+    if devs:
+        open(path, 'w').write('\n'.join(devs) + '\n' + out)
+        chk.replay_files.append(path)
+        o.replay = path
+        o.detail += ' | reproduced natively (in-crate replay of the real functions): %s' % devs[0]
+    else:
+        o.verdict = 'inconclusive'
+        o.detail += ' | not reproduced natively (in-crate replay: options come back as configured, waits as specified)'
 
 
 def body(chk):
@@ -267,6 +389,7 @@ def body(chk):
         return z3.And(*c)
     simple(chk, 'C05.left_until_retry', 'all delays, all clock readings (elapsed symbolic, 64-bit nanoseconds)', b,
            lambda ex, M: (wf(ex), [Ref(Cell(rd_v()), ())])[1], claim_left)
+    round_trip(chk, prog, ro_v, wf, fld, R, RO, cur, left, after_d, dur, now, fb[0])
     chk.assumptions += ['Duration / Instant are abstract 64-bit nanosecond values; Instant::elapsed returns an arbitrary value (symbolic clock)',
                         'run_scenario\'s `retries.filter(|_| is_failed).and_then(next_try)` lives in a multi-poll coroutine (see DESIGN: stage M3)']
     sched.insert_scenarios_obligations(chk, 'C05')
